@@ -17,7 +17,8 @@ RULE = ('cells = (dim, wavelet, mode, J, signal shape) as in C01; pyramid shapes
         'pywt.dwt_coeff_len; per cell a one-hot pyramid per coefficient position (whole synthesis '
         'operator), dense random / dynamic-range pyramids (not in the range of the analysis '
         'operator), and pyramids with a subset of levels None; distinct by (cell, input kind, '
-        'None mask); non-trivial when the pyramid is not all-zero')
+        'None mask); non-trivial when the pyramid is not all-zero'
+        '; wave argument forms, user-defined banks and autograd contexts as in C01')
 ASSUMPTIONS = ['PyWavelets 1.10 waverec/waverec2 is the specification, including its handling of None',
                'float64; tolerance 1e-11 * (synthesis l1 gain)^(J*dim) * max|c|',
                'signal sizes bounded (1-D <= 130, 2-D sides <= 33), J <= 4']
